@@ -4,7 +4,7 @@ histories (Proofs/Layer2.v, Proofs/Layer2Lp.v) + differential run of the real ms
 and keeper-level LP functions, evaluated inside Coq; spec checker on the real observations."""
 import json, os
 
-FILES = ["Base/Prelude.v", "Base/Dec.v", "Model/Layer2.v", "Model/C20Check.v", "Proofs/Layer2.v", "Proofs/Layer2Lp.v", "Proofs/Layer2Chk.v"]
+FILES = ["Base/Prelude.v", "Base/Dec.v", "Model/Layer2.v", "Model/C20Check.v", "Proofs/Layer2.v", "Proofs/Layer2Lp.v", "Proofs/Layer2All.v", "Proofs/Layer2Chk.v"]
 ORDER = ["user", "reject", "escrow", "frame", "burn", "total-sum", "max", "refund", "held", "pool-native", "lp-supply", "nofree-step", "nofree"]
 
 
@@ -68,6 +68,16 @@ def features(case, s, users):
         if old and int(old[0]["total"]) != st.get("total", 0):
             return "total-rewritten"
         return "none"
+    if op in ("kswap", "kredeem", "kconvert"):
+        fee = st.get("fee")
+        if op == "kconvert":   # the conversion uses the stored pool fees of both dApps
+            fees = {}
+            for x in steps[:s]:
+                if x["op"] in ("create", "upsert") and x["ok"] and x.get("params"):
+                    fees[x["name"]] = x["params"]["fee"]
+            fee = min([fees.get(st.get("name"), "0"), fees.get(st.get("name2"), "0")], key=float)
+        if fee is not None and float(fee) < 0:
+            return "negative-fee"
     if op == "kconvert" and st.get("name") == st.get("name2"):
         return "same-dapp"
     if any(d["name"] == "" for d in prev["dapps"]) and st.get("name") == "":
